@@ -159,7 +159,9 @@ class Gen:
                 b = self.ensure_scalar(env, out)
                 self.tags.add("maybe-ill-typed")
             if op in ("ODiv", "OMod") and a[1][1] == "Const" and b[1][1] == "Const":
-                op = "OAdd"                            # avoid ZeroDivisionError noise in the main stream
+                # literal / literal: a fresh non-zero literal divisor (no ZeroDivisionError noise in the main stream)
+                lb = {"k": "lit", "x": self.fresh(), "b": b[1][2], "v": r.choice([1, 2, 3, 7, 2 ** 64 + 1] + ([-2, -3] if b[1][2] == "Int" else []))}
+                out.append(lb); b = (lb["x"], S("Const", b[1][2]), {"bits": 70}); env.append(b)
             if op in ("OPow", "OLShift", "ORShift") and b[1][1] == "Const":
                 # keep folded powers / shifts small: a fresh small literal as exponent / amount
                 lb = {"k": "lit", "x": self.fresh(), "b": b[1][2], "v": r.choice([0, 1, 2, 3, 5])}
@@ -234,7 +236,7 @@ class Gen:
             c = [e for e in env if e[1][0] != "fn"]
             if not c: return
             es = [r.choice(c) for _ in range(r.choice([1, 2, 3]))]
-            keys = ["a", "b", "c", "k1"][:len(es)]
+            keys = r.sample(["zed", "alpha", "mid", "k1", "b"], len(es))
             out.append({"k": "objnew", "x": x, "fs": list(zip(keys, [e[0] for e in es]))})
             env.append((x, ("obj", list(zip(keys, [e[1] for e in es]))), {"vals": list(zip(keys, es))})); return
         if k == "idx":
@@ -469,7 +471,11 @@ def py_stmts(stmts, ind):
             L.append(f"{p}{s['x']} = {s['f']}({', '.join(s['args'])}{kw})")
         elif k == "def":
             ps = s["params"]
-            if s["form"] == "decorator":
+            if s["form"] == "plain":
+                L.append(f"{p}def {s['f']}({', '.join(f'{n}: {py_type(t)}' for n, t in ps)}) -> {py_type(s['ret'])}:")
+                L += py_stmts(s["body"], ind + 4)
+                L.append(f"{p}    return {s['res']}")
+            elif s["form"] == "decorator":
                 L.append(f"{p}@nada_fn")
                 L.append(f"{p}def {s['f']}({', '.join(f'{n}: {py_type(t)}' for n, t in ps)}) -> {py_type(s['ret'])}:")
                 L += py_stmts(s["body"], ind + 4)
